@@ -11,9 +11,10 @@ RULES = {
     'C13.R3': 'n_remaining is the number of siblings enqueued after the node in visiting order (enumerate index over the reversed sequence, or count-1-index over the forward one)',
     'C13.R4': 'skip bookkeeping: last_push reset before the child loop, incremented per enqueue; skip_subtree removes last_push entries from the enqueue end and resets last_push',
     'C13.R5': 'size bounds: lower bound after a skip is taken after the removals; an edge traversal does not start with the node count; size_hint of wrappers delegates to the traversal',
+    'C13.R7': 'index validity = arena membership for every index-taking method of Tree (path_to_node, add_child_node, remove_all_descendants, node accessors)',
     'C13.R6': 'index-order iterators filter on isleaf with the right polarity; num_terminals / num_nodes count the matching iterator',
 }
-FLOORS = {'C13.R1': 3, 'C13.R2': 3, 'C13.R3': 2, 'C13.R4': 6, 'C13.R5': 6, 'C13.R6': 8}
+FLOORS = {'C13.R1': 3, 'C13.R2': 3, 'C13.R3': 2, 'C13.R4': 6, 'C13.R5': 6, 'C13.R6': 8, 'C13.R7': 9}
 EXPLANATION = 'Sibling agreement between the three traversals and pairing/ordering rules on their bookkeeping.'
 DOES_NOT_DECIDE = 'exact visiting sequences, depth values, depth_stats, path_to_node arithmetic, numeric tightness of size_hint'
 LIFO_POP = {'Vec::pop'}
@@ -47,6 +48,7 @@ def run(ctx):
         r5_skip(ctx, ty, m)
     r5_wrappers(ctx)
     r6(ctx)
+    r7(ctx)
 
 
 def r1(ctx, ty, b):
@@ -271,6 +273,40 @@ def r5_wrappers(ctx):
                 ctx.bad('C13.R5', site, 'size_hint of a stateful iterator does not read the iterator\'s progress: %s' % [fmt(r) for r in rets], b.span)
     if n < 2:
         ctx.lost('C13.R5', 'Iterator::size_hint wrappers (TraversalIter, PolyhedraIter)')
+
+
+def r7(ctx):
+    """An index is rejected as invalid exactly on arena membership: every InvalidTreeIndexError{index: x} built in impl Tree is guarded
+    by the false outcome of arena.contains(x) or is the `ok_or` alternative of arena.get(x) / get_mut(x)."""
+    F = ctx.facts
+    n = 0
+    for b in F.bodies:
+        if b.self_base != 'Tree' or b.kind == 'Closure':
+            continue
+        R = None
+        for i, j, st in b.stmts():
+            if st['k'] == 'assign' and st['rv']['k'] == 'agg' and st['rv']['agg']['k'] == 'adt' and st['rv']['agg']['path'].endswith('InvalidTreeIndexError'):
+                R = R or Resolver(b)
+                n += 1
+                v = R.rvalue(st['rv'], i, j)
+                x = v[2][0]
+                lits = literals(b, R, i)
+                guarded = any(l[0] == 'false' and is_call(l[1], 'Slab::contains') and l[1][2][0] == ('field', ('param', 'self'), 'arena') and s(l[1][2][1]) == s(x) for l in lits)
+                # ok_or(arena.get(x), InvalidTreeIndexError{x}): the error value is an argument of ok_or on a lookup of the same index
+                via_lookup = False
+                for bb, t in b.calls():
+                    c = Callee(t['func'])
+                    if c.name == 'ok_or':
+                        a = R.call_args(bb)
+                        if s(a[1]) == s(v) and any(is_call(y, 'Slab::get', 'Slab::get_mut') and s(y[2][1]) == s(x) for y in walk(a[0])):
+                            via_lookup = True
+                site = '%s#invalid-index' % b.qname
+                if guarded or via_lookup:
+                    ctx.ok('C13.R7', site, 'index rejected exactly when the arena does not contain it', st['span'])
+                else:
+                    ctx.bad('C13.R7', site, 'an index is reported invalid under a test other than arena membership (live nodes can be rejected after deletions / freed ones accepted)', st['span'])
+    if n == 0:
+        ctx.lost('C13.R7', 'constructions of InvalidTreeIndexError in impl Tree')
 
 
 def r6(ctx):
